@@ -118,4 +118,18 @@ def ExactMatchG (args : List ETy) (g : GCand) : Prop := ∃ rs, ViableG args g r
 /-- no candidate reaches a panic site (template instantiation or `get_rank`) -/
 def NoPanicG (cands : List GCand) (args : List ETy) : Prop := ∀ g ∈ cands, (rankG args g).isPanic = false
 
+/-- the layer is not (built from) an untyped literal -/
+def NonLiteral : Layer → Prop
+  | .scalar s => s ≠ .intLiteral ∧ s ≠ .floatLiteral
+  | .vector s _ => s ≠ .intLiteral ∧ s ≠ .floatLiteral
+  | .matrix s _ _ => s ≠ .intLiteral ∧ s ≠ .floatLiteral
+  | _ => True
+
+/-- every parameter is a concrete type or a bare type template parameter `T` -/
+def SimpleTemplate (c : TCand) : Prop :=
+  ∀ p ∈ c.params, match p.pat with
+    | .conc _ => True
+    | .tvar k => c.tkinds[k]? = some TKind.type
+    | _ => False
+
 end RsslVerif.Spec.Overload
